@@ -948,9 +948,9 @@ fn c01(tier: Tier, seed: u64) -> i32 {
 	}
 	// all schedules of tiny programs
 	let tcfg = tiny_conc_cfg();
-	let cap = tier.pick(4_000, 60_000) as usize;
-	let n = tier.pick(600, 20_000);
-	ctx.search("conc-tiny-programs-all-schedules", n, 120, |bytes, want| {
+	let cap = tier.pick(4_000, 20_000) as usize;
+	let n = tier.pick(1_500, 40_000);
+	ctx.search_balanced("conc-tiny-programs-all-schedules", n, 120, |bytes, want| {
 		let case = gen_conc(&mut Src::new(bytes), &tcfg);
 		exhaust_program(&e, &case, cap, want)
 	});
@@ -992,9 +992,9 @@ fn c09(tier: Tier, seed: u64) -> i32 {
 	});
 	let mut tcfg = tiny_conc_cfg();
 	tcfg.retry_first = true;
-	let cap = tier.pick(4_000, 60_000) as usize;
-	let n = tier.pick(600, 20_000);
-	ctx.search("conc-tiny-retry-programs-all-schedules", n, 120, |bytes, want| {
+	let cap = tier.pick(4_000, 20_000) as usize;
+	let n = tier.pick(1_500, 40_000);
+	ctx.search_balanced("conc-tiny-retry-programs-all-schedules", n, 120, |bytes, want| {
 		let case = gen_conc(&mut Src::new(bytes), &tcfg);
 		exhaust_program(&e, &case, cap, want)
 	});
@@ -1459,6 +1459,7 @@ pub fn exhaust_program(e: &ConcEval<'_>, case: &ConcCase, cap: usize, want: bool
 	let mut stack: Vec<Vec<u8>> = vec![vec![]];
 	let mut runs = 0usize;
 	let mut complete = true;
+	let t_start = std::time::Instant::now();
 	let mut labels: std::collections::BTreeSet<String> = std::collections::BTreeSet::new();
 	let mut max_branch = 0usize;
 	while let Some(prefix) = stack.pop() {
@@ -1476,8 +1477,16 @@ pub fn exhaust_program(e: &ConcEval<'_>, case: &ConcCase, cap: usize, want: bool
 		}
 		let branches: Vec<(u8, u8)> = r.taken.iter().filter(|(_, k)| *k > 1).cloned().collect();
 		max_branch = max_branch.max(branches.len());
-		// children: flip every choice after the forced prefix
-		for j in prefix.len()..branches.len() {
+		// children: flip every choice after the forced prefix, up to a depth
+		// bound: two retrying collections can chase each other for ever under an
+		// adversarial schedule, so the schedule tree of such programs is infinite;
+		// beyond the bound the run continues run-to-block
+		const DEPTH: usize = 40;
+		if branches.len() > DEPTH {
+			complete = false;
+			labels.insert("conc.exhaustive.depth_bounded".into());
+		}
+		for j in prefix.len()..branches.len().min(DEPTH) {
 			let (_, k) = branches[j];
 			for a in 1..k {
 				let mut p2: Vec<u8> = branches[..j].iter().map(|(i, _)| *i).collect();
@@ -1500,6 +1509,9 @@ pub fn exhaust_program(e: &ConcEval<'_>, case: &ConcCase, cap: usize, want: bool
 			labels.insert("conc.waited".into());
 		}
 		if let Some(i) = r.inconclusive.clone() {
+			if std::env::var_os("HLV_DEBUG_SLOW").is_some() && rep.inconclusive.is_none() {
+				eprintln!("INCONCLUSIVE run ({i}): {}", serde_json::to_string(&c).unwrap_or_default());
+			}
 			rep.inconclusive = Some(i);
 		}
 		if !v.is_empty() && rep.replay.is_none() {
@@ -1509,6 +1521,9 @@ pub fn exhaust_program(e: &ConcEval<'_>, case: &ConcCase, cap: usize, want: bool
 		if !rep.violations.is_empty() {
 			break;
 		}
+	}
+	if std::env::var_os("HLV_DEBUG_SLOW").is_some() && t_start.elapsed().as_secs_f64() > 2.0 {
+		eprintln!("SLOW program: {:.1}s, {runs} runs, max_branch {max_branch}, complete={complete}: {:?} world={:?}", t_start.elapsed().as_secs_f64(), case.programs, describe_world(&case.world));
 	}
 	rep.extra_evals = runs.saturating_sub(1) as u64;
 	labels.insert(if complete { "conc.exhaustive.program_fully_enumerated".into() } else { "conc.exhaustive.capped".into() });
